@@ -238,14 +238,16 @@ def observed_items(got):
 
 
 def _about_ok(text, label):
+    """The report must carry *a* textual rendering of the affected message: its type, status and
+    serial number have to occur in it; the exact layout is not demanded."""
     if not isinstance(text, str):
         return False
     typ, status, serial = label
-    if typ is not None and repr(typ) not in text:
+    if typ and typ not in text:
         return False
-    if status is not None and repr(status) not in text:
+    if status is not None and status not in text:
         return False
-    if serial is not None and ("\"'serial'\": '%d'" % serial) not in text:
+    if serial is not None and not re.search(r"(?<!\d)%d(?!\d)" % serial, text):
         return False
     return True
 
